@@ -2,7 +2,7 @@
 
 import random
 from collections import defaultdict
-from collections.abc import Hashable, Iterable
+from collections.abc import Hashable, Iterable, Iterator
 from copy import copy, deepcopy
 from itertools import count
 from warnings import warn
@@ -716,6 +716,7 @@ class Hypergraph:
                     warn(f"uid {idx} already exists, cannot add edge {members}.")
                     continue
                 try:
+                    members = list(members)  # may be a one-shot iterator
                     member_set = set(members)
                 except TypeError as e:
                     raise XGIError("Invalid ebunch format") from e
@@ -741,6 +742,8 @@ class Hypergraph:
             first_edge = next(new_edges)
         except StopIteration:
             return
+        if isinstance(first_edge, Iterator):
+            first_edge = list(first_edge)  # do not consume it while sniffing the format
         try:
             first_elem = list(first_edge)[0]
         except (TypeError, IndexError):
@@ -780,6 +783,7 @@ class Hypergraph:
                 warn(f"uid {idx} already exists, cannot add edge {members}.")
             else:
                 try:
+                    members = list(members)  # may be a one-shot iterator
                     member_set = set(members)
                 except TypeError as e:
                     raise XGIError("Invalid ebunch format") from e
